@@ -272,15 +272,30 @@ class C20(core.Check):
         jesse_env.setup()
         import numpy as np
         from jesse.modes.import_candles_mode import _fill_absent_candles
-        for (n, present) in self.fa_cases(boost):
+        cases = []
+        for ci, (n, present) in enumerate(self.fa_cases(boost)):
+            cases.append((n, present, 'as-is'))
+            # the batch as some exchanges deliver it: newest first; and with one candle from before the requested start
+            if ci % 4 == 1 and len(present) > 1:
+                cases.append((n, present, 'newest-first'))
+            if ci % 4 == 3:
+                cases.append((n, present, 'one-candle-before-start'))
+        for (n, present, order) in cases:
             start, stop, temp = self.fa_input(n, present)
-            inp = {'start': start, 'minutes': n, 'present': present}
+            if order == 'newest-first':
+                temp = temp[::-1]
+            elif order == 'one-candle-before-start':
+                early = dict(temp[0])
+                early['timestamp'] = start - M
+                temp = [early] + temp
+            inp = {'start': start, 'minutes': n, 'present': present, 'batch_order': order}
+            res.count('fill_absent:batch-' + order)
             try:
                 out = _fill_absent_candles([dict(t) for t in temp], start, stop)
             except Exception as e:  # noqa
                 res.fail(**{'class': 'fill_absent/raises', 'input': inp, 'observed': repr(e)})
                 continue
-            res.seen(('fa', n, tuple(present)), len(present) < n)
+            res.seen(('fa', n, tuple(present), order), len(present) < n)
             if any(i >= n for i in present):
                 res.count('fill_absent:response-runs-past-the-interval')
             res.count('fill_absent')
